@@ -696,6 +696,53 @@ pub fn run(ctx: &mut Ctx) {
         check_translation(rep, &t, "generated");
     });
 
+    // ---- an untranslatable construct planted anywhere in a translatable expression: the whole translation fails ---------
+    let npl = ctx.n(30_000, 300_000);
+    ctx.stage("unsupported-planted", npl, true, |_idx, rng, rep| {
+        let d = 1 + rng.below(4) as u32;
+        let t = gen_sql_expr(rng, d);
+        // count the leaves, pick one, replace it
+        let mut leaves = 0usize;
+        t.visit(&mut |x| {
+            if matches!(x, E::Var(_) | E::Lit(_)) {
+                leaves += 1;
+            }
+        });
+        if leaves == 0 {
+            return;
+        }
+        let target = rng.below(leaves);
+        let plant = *rng.pick(&["b'abc'", "b''", "f'{a}'", "f'x{a}y'", "f'{a}{b}'", "(match a { case 1: 2, case _: 3 })", "(match a { case _: b })"]);
+        let seen = std::cell::Cell::new(0usize);
+        let planted = t.map_tree(&|x| {
+            if matches!(x, E::Var(_) | E::Lit(_)) {
+                let k = seen.get();
+                seen.set(k + 1);
+                if k == target {
+                    return Some(E::Raw(plant.to_string()));
+                }
+            }
+            None
+        });
+        let src = gen::render(&planted, Ws::Pretty, Parens::Minimal, None).text;
+        rep.eval();
+        rep.count("unsupported_planted_cases");
+        match to_sql(&src) {
+            Err((m, l)) => rep.viol("to_sql|panic", &format!("to_sql(`{}`) panicked: {} at {}", mon::clip(&src, 200), m, l), json!({"source": src})),
+            Ok(Ok(sql)) => rep.viol(
+                "to_sql|unsupported-translated",
+                &format!("`{}` contains `{}`, which has no translation, but produced `{}`", mon::clip(&src, 200), plant, mon::clip(&sql, 200)),
+                json!({"source": src, "sql": sql, "planted": plant}),
+            ),
+            Ok(Err(e)) => {
+                if !e.starts_with("unsupported") {
+                    rep.viol("to_sql|wrong-error", &format!("`{}`: {}", mon::clip(&src, 200), e), json!({"source": src}));
+                }
+            }
+        }
+        rep.distinct(&src, true);
+    });
+
     // ---- runs of unary operators -------------------------------------------------------------------------------
     ctx.stage("unary-runs", 24, false, |idx, _rng, rep| {
         let c = if idx % 2 == 0 { '!' } else { '-' };
